@@ -4,6 +4,7 @@ import (
 	"fmt"
 	"go/types"
 	"math"
+	"math/bits"
 	"strings"
 
 	"bklsym/sym"
@@ -104,6 +105,14 @@ type Machine struct {
 	under     bool
 	env       []value // os.Environ stub ("K=V" strings, values possibly symbolic)
 	cand      *Candidate
+	decided   map[int]bool
+	evalMemo  map[int]sym.Val
+	doms      map[string]*dom
+	tsMemo    map[int]sym.Val
+	entangled map[string]bool
+	walked    map[int]bool
+	pcSent    int
+	solverOpen bool
 	vfs       *vfs
 	harness   string
 	initDone  bool
@@ -143,6 +152,14 @@ func (m *Machine) resetPath(prefix []int32) {
 	m.fnStack = m.fnStack[:0]
 	m.stores = nil
 	m.initDone = false
+	m.decided = map[int]bool{}
+	m.evalMemo = map[int]sym.Val{}
+	m.doms = map[string]*dom{}
+	m.tsMemo = map[int]sym.Val{}
+	m.entangled = map[string]bool{}
+	m.walked = map[int]bool{}
+	m.pcSent = 0
+	m.solverOpen = false
 }
 
 // ---- path condition and forking ----
@@ -152,7 +169,130 @@ func (m *Machine) assumeTerm(t *sym.Term) {
 		return
 	}
 	m.pc = append(m.pc, t)
-	m.solver.Assert(t)
+	if m.lastModel != nil && sym.Eval(t, m.lastModel, m.evalMemo).U != 1 {
+		m.lastModel = nil
+	}
+	if v := m.unaryVar(t); v != nil {
+		d := m.domOf(v)
+		ts := m.truthSet(t, v)
+		for i := range d {
+			d[i] &= ts[i]
+		}
+	} else {
+		m.entangle(t)
+	}
+}
+
+// assumeWithDom adds a unary conjunct whose truth set (within the current
+// domain of v) is already known to be d.
+func (m *Machine) assumeWithDom(t *sym.Term, v *sym.Term, d *dom) {
+	m.pc = append(m.pc, t)
+	if m.lastModel != nil && sym.Eval(t, m.lastModel, m.evalMemo).U != 1 {
+		m.lastModel = nil
+	}
+	cur, ok := m.doms[v.Name]
+	if !ok {
+		c := *d
+		m.doms[v.Name] = &c
+		return
+	}
+	for i := range cur {
+		cur[i] &= d[i]
+	}
+}
+
+// ---- small-domain tracking ----
+//
+// For variables of at most 8 bits (string bytes, scalar kinds, token indices,
+// bools) the set of values allowed by the unary conjuncts of the path
+// condition is kept as a bitset. As long as such a variable occurs in no
+// path-condition conjunct together with another variable, feasibility of a
+// unary condition on it is decided on the bitset, exactly, without a solver
+// query. (The conjuncts are still handed to the solver, for the queries that
+// do relate several variables.)
+
+type dom [4]uint64
+
+func (d *dom) empty() bool { return d[0]|d[1]|d[2]|d[3] == 0 }
+
+func smallSort(so sym.Sort) bool {
+	return so.K == sym.KBool || (so.K == sym.KBV && so.W <= 8)
+}
+
+func (m *Machine) domOf(v *sym.Term) *dom {
+	if d, ok := m.doms[v.Name]; ok {
+		return d
+	}
+	d := &dom{}
+	n := 2
+	if v.Sort.K == sym.KBV {
+		n = 1 << v.Sort.W
+	}
+	for x := 0; x < n; x++ {
+		d[x>>6] |= 1 << (uint(x) & 63)
+	}
+	m.doms[v.Name] = d
+	return d
+}
+
+// unaryVar: the single small-sorted, non-entangled variable of t, or nil.
+func (m *Machine) unaryVar(t *sym.Term) *sym.Term {
+	vs, ok := m.st.FreeVars(t, 1)
+	if !ok || len(vs) != 1 || !smallSort(vs[0].Sort) || m.entangled[vs[0].Name] {
+		return nil
+	}
+	return vs[0]
+}
+
+// truthSet evaluates the unary condition t for every value of v that is still
+// in the domain d.
+func (m *Machine) truthSet(t *sym.Term, v *sym.Term) *dom {
+	cur := m.domOf(v)
+	d := &dom{}
+	model := sym.Model{}
+	for w := 0; w < 4; w++ {
+		bitsw := cur[w]
+		for bitsw != 0 {
+			b := bits.TrailingZeros64(bitsw)
+			bitsw &^= 1 << uint(b)
+			x := w<<6 | b
+			model[v.Name] = sym.Val{U: uint64(x)}
+			clear(m.tsMemo)
+			if sym.Eval(t, model, m.tsMemo).U == 1 {
+				d[w] |= 1 << uint(b)
+			}
+		}
+	}
+	return d
+}
+
+func (m *Machine) entangle(t *sym.Term) {
+	if t.Op == sym.OConst || m.walked[t.ID] {
+		return
+	}
+	m.walked[t.ID] = true
+	if t.Op == sym.OVar {
+		if smallSort(t.Sort) {
+			m.entangled[t.Name] = true
+		}
+		return
+	}
+	for _, a := range t.Args {
+		m.entangle(a)
+	}
+}
+
+// check flushes pending path-condition conjuncts to the solver and decides
+// PC ∧ extra.
+func (m *Machine) check(extra ...*sym.Term) sym.Result {
+	if !m.solverOpen {
+		m.solver.BeginPath()
+		m.solverOpen = true
+	}
+	for ; m.pcSent < len(m.pc); m.pcSent++ {
+		m.solver.Assert(m.pc[m.pcSent])
+	}
+	return m.solver.Check(extra...)
 }
 
 func (m *Machine) record(d int32) {
@@ -167,6 +307,22 @@ func (m *Machine) decide(c *sym.Term) bool {
 	if c.IsConst() {
 		return c.IsTrue()
 	}
+	// a condition already settled on this path (terms are hash-consed, so
+	// the reference model and the real code ask about the same Term)
+	if v, ok := m.decided[c.ID]; ok {
+		return v
+	}
+	res := m.decide1(c)
+	m.decided[c.ID] = res
+	if c.Op == sym.ONot {
+		m.decided[c.Args[0].ID] = !res
+	} else {
+		m.decided[m.st.Not(c).ID] = !res
+	}
+	return res
+}
+
+func (m *Machine) decide1(c *sym.Term) bool {
 	idx := len(m.decisions)
 	if idx < len(m.prefix) {
 		d := m.prefix[idx]
@@ -183,15 +339,63 @@ func (m *Machine) decide(c *sym.Term) bool {
 		return v
 	}
 	nc := m.st.Not(c)
-	r1 := m.solver.Check(c)
+	if v := m.unaryVar(c); v != nil {
+		d := m.domOf(v)
+		ts := m.truthSet(c, v)
+		var T, F dom
+		for i := range d {
+			T[i] = d[i] & ts[i]
+			F[i] = d[i] &^ ts[i]
+		}
+		switch {
+		case T.empty():
+			m.record(0 | forcedFlag)
+			return false
+		case F.empty():
+			m.record(1 | forcedFlag)
+			return true
+		}
+		m.forks++
+		alt := append(append([]int32(nil), m.decisions...), 0)
+		m.pending = append(m.pending, alt)
+		m.record(1)
+		m.assumeTerm(c)
+		return true
+	}
+	// A cached model of the path condition tells which side is certainly
+	// feasible; only the other side needs a query.
+	known := -1
+	if m.lastModel != nil {
+		if sym.Eval(c, m.lastModel, m.evalMemo).U == 1 {
+			known = 1
+		} else {
+			known = 0
+		}
+	}
+	var r1, r2 sym.Result
+	if known == 1 {
+		r1 = sym.Sat
+	} else {
+		r1 = m.check(c)
+		if r1 == sym.Sat {
+			// the path continues on side c whenever c is feasible: keep a
+			// model of PC ∧ c
+			m.fetchModel()
+		}
+	}
 	if r1 == sym.Unsat {
 		m.record(0 | forcedFlag)
 		return false
 	}
 	if r1 == sym.Unknown {
 		m.unknowns++
+		m.lastModel = nil
 	}
-	r2 := m.solver.Check(nc)
+	if known == 0 {
+		r2 = sym.Sat
+	} else {
+		r2 = m.check(nc)
+	}
 	if r2 == sym.Unsat {
 		m.record(1 | forcedFlag)
 		return true
@@ -206,6 +410,17 @@ func (m *Machine) decide(c *sym.Term) bool {
 	m.record(1)
 	m.assumeTerm(c)
 	return true
+}
+
+// fetchModel caches a model of the formula of the last Sat check.
+func (m *Machine) fetchModel() {
+	model, err := m.solver.GetModel(m.ndVars())
+	if err != nil {
+		m.lastModel = nil
+		return
+	}
+	m.lastModel = model
+	m.evalMemo = map[int]sym.Val{}
 }
 
 // choose is an n-way structural fork that needs no solver.
@@ -366,11 +581,22 @@ func (m *Machine) ndScalar(withInt64, withNil bool) value {
 	if withInt64 {
 		maxK = skInt64
 	}
-	m.assumeTerm(st.ULe(sc.Kind, st.BVC(8, uint64(maxK))))
-	if !withNil {
-		m.assumeTerm(st.Not(st.Eq(sc.Kind, st.BVC(8, skNil))))
+	kd := &dom{}
+	for k := 0; k <= maxK; k++ {
+		if k == skNil && !withNil {
+			continue
+		}
+		kd[0] |= 1 << uint(k)
 	}
-	m.assumeTerm(st.ULt(sc.S, st.BVC(8, uint64(len(m.strTokens)))))
+	m.assumeWithDom(st.ULe(sc.Kind, st.BVC(8, uint64(maxK))), sc.Kind, kd)
+	if !withNil {
+		m.assumeWithDom(st.Not(st.Eq(sc.Kind, st.BVC(8, skNil))), sc.Kind, kd)
+	}
+	sd := &dom{}
+	for i := range m.strTokens {
+		sd[0] |= 1 << uint(i)
+	}
+	m.assumeWithDom(st.ULt(sc.S, st.BVC(8, uint64(len(m.strTokens)))), sc.S, sd)
 	// NaN is excluded from scalar leaves (documentation-silent: NaN != NaN).
 	m.assumeTerm(st.Not(st.FIsNaN(sc.F)))
 	m.nd = append(m.nd, ndRec{Kind: "scalar", Sc: sc})
@@ -453,7 +679,7 @@ func (m *Machine) concreteND(model sym.Model) []NDValue {
 // modelNow asks the solver for a model of the current path condition plus
 // the extra literals. ok=false if not sat.
 func (m *Machine) modelNow(extra ...*sym.Term) (sym.Model, sym.Result) {
-	r := m.solver.Check(extra...)
+	r := m.check(extra...)
 	if r != sym.Sat {
 		return nil, r
 	}
